@@ -247,9 +247,9 @@ Definition dh_i (eD eL : bytes) (x : N) (P : bytes) : bytes :=
 Definition all_curve (_ : bytes) : bool := true.
 
 Definition mk_dialer (eD eL idD : bytes) (dialed : option pid) : party :=
-  mkParty 1 3 (honest_payload sign_ideal idD (pubk_i eD eL 3)) dialed.
+  mkParty 1 3 (honest_payload sign_ideal idD (pubk_i eD eL 3)) dialed [].
 Definition mk_listener (eD eL idL : bytes) (dialed : option pid) : party :=
-  mkParty 2 4 (honest_payload sign_ideal idL (pubk_i eD eL 4)) dialed.
+  mkParty 2 4 (honest_payload sign_ideal idL (pubk_i eD eL 4)) dialed [].
 
 Fixpoint ct_of (tab : list (bytes * ct)) (b : bytes) : ct :=
   match tab with
